@@ -246,7 +246,7 @@ Definition GQ_s (s : cstmt) : Prop := forall lv f st j sc' n' i bf a sc n,
   gres (jwalk o f (snode s)) st (sprint i j) i bf a sc' n'.
 Definition GQ_b (b : cblk) : Prop := forall lv f st jb n' i bf a sc n,
   (bdepth b <= f)%nat -> sc <> [] -> lvok lv sc -> bwf lv b = true -> shape st i bf a sc n -> bgen a bf sc n b = (jb, n') ->
-  exists sc', tl sc' = tl sc /\ gres (jwalk_list (jwalk o f) (bnodes b)) st (bprint i jb) i bf a sc' n'.
+  exists sc', tl sc' = tl sc /\ (msg_ok b = true -> sc' = sc) /\ gres (jwalk_list (jwalk o f) (bnodes b)) st (bprint i jb) i bf a sc' n'.
 Definition GQ_e (e : celse) : Prop := forall lv F st jl n' i bf a sc n,
   (edepth e < F)%nat -> sc <> [] -> lvok lv sc -> ewf lv e = true -> shape st i bf a sc n -> egen a bf sc n e = (jl, n') ->
   gres (jif_conds (jwalk o F) false (enodes e)) st (lprint i jl) i bf a sc n'.
@@ -275,7 +275,7 @@ Proof.
   assert (H2 : shape x2 i bf a ([] :: sc) n /\ j_out x2 = j_out x1).
   { subst x2. destruct H1 as (? & ? & ? & ? & ?). destruct x1; cbn in *. subst. repeat split. }
   destruct H2 as (H2 & O2).
-  destruct (Hb lv f x2 jb n' i bf a ([] :: sc) n ltac:(lia) ltac:(discriminate) (lvok_push _ _ Hlv) Hwf H2 Eg) as (sc' & Htl & (x3 & E3 & O3 & I3 & B3 & A3 & S3 & N3)).
+  destruct (Hb lv f x2 jb n' i bf a ([] :: sc) n ltac:(lia) ltac:(discriminate) (lvok_push _ _ Hlv) Hwf H2 Eg) as (sc' & Htl & _ & (x3 & E3 & O3 & I3 & B3 & A3 & S3 & N3)).
   unfold gres. erewrite jbind_ok; [|exact E2]. erewrite jbind_ok; [|exact E3].
   exists (set_scope (tl (j_scope x3)) (j_n x3) x3). split; [reflexivity|].
   split; [cbn; rewrite O3, O2; reflexivity|].
@@ -330,6 +330,27 @@ Proof.
 Qed.
 
 Hypothesis HCN : cn_ok.
+(* no translation bundle: a message is rendered from its source *)
+Hypothesis HNB : o_msgs o = None.
+
+Lemma sprint_seq ind jb : sprint ind (JSSeq jb) = bprint ind jb. Proof. reflexivity. Qed.
+Lemma swf_msg lv body : swf lv (SMsg body) = msg_ok body && bwf lv body. Proof. reflexivity. Qed.
+Lemma msg_size_mnodes body : msg_ok body = true -> msg_size (mnodes body) = S (length (mnodes body)).
+Proof.
+  unfold msg_size. intro Hm. f_equal. induction body as [|s r IH]; [reflexivity|]. cbn [msg_ok] in Hm. apply andb_prop in Hm. destruct Hm as [Hs Hr].
+  cbn [mnodes fold_right length]. rewrite (IH Hr). destruct s; try discriminate Hs; reflexivity.
+Qed.
+(* visitMsgNode's loop over the children of a message without plural: the statements, one after the other *)
+Lemma gen_msg_children w body : msg_ok body = true -> forall fuel st, (length (mnodes body) < fuel)%nat ->
+  jmsg_children w fuel (mnodes body) st = jwalk_list w (bnodes body) st.
+Proof.
+  induction body as [|s r IH]; intros Hm fuel st Hf; (destruct fuel as [|f]; [cbn [length] in Hf; lia|]); [reflexivity|].
+  cbn [msg_ok] in Hm. apply andb_prop in Hm. destruct Hm as [Hs Hr]. cbn [mnodes bnodes length] in *. fold bnodes.
+  assert (Hstep : forall x, jmsg_children w (S f) (x :: mnodes r) st = (w (snode s) ;;; jmsg_children w f (mnodes r)) st ->
+                  jmsg_children w (S f) (x :: mnodes r) st = jwalk_list w (snode s :: bnodes r) st).
+  { intros x Hx. rewrite Hx. cbn [jwalk_list]. unfold jbind. destruct (w (snode s) st) as [[u st1]| | | | |]; try reflexivity. apply IH; [exact Hr|lia]. }
+  destruct s; try discriminate Hs; apply Hstep; reflexivity.
+Qed.
 
 Theorem sgen_print_all : (forall s, GQ_s s) /\ (forall b, GQ_b b) /\ (forall e, GQ_e e) /\ (forall k, GQ_k k) /\ (forall ps, GQ_p ps).
 Proof.
@@ -589,20 +610,34 @@ Proof.
     destruct Hfin as (stf & Ef & Of & Hf').
     exists stf. erewrite jbind_ok; [|exact E1]. split; [exact Ef|]. split; [|exact Hf'].
     rewrite Of, O2. rewrite (rev_app_distr (pprint i jps)). apply app_assoc.
+  - (* msg *) intros body IHb lv f st j sc' n' i bf a sc n Hf Hn Hlv Hwf Hs Eg. rewrite sgen_msg in Eg.
+    destruct (bgen a bf sc n body) as [jb n1] eqn:E1. inversion Eg; subst. clear Eg.
+    rewrite swf_msg in Hwf. apply andb_prop in Hwf. destruct Hwf as [Hm Hwb].
+    rewrite sdepth_msg in Hf. destruct f as [|F]; [lia|]. rewrite snode_msg, sprint_seq.
+    eapply gres_walk; [reflexivity|exact Hs|]. intros st1 H1. cbn [jwalk_node]. unfold visit_msg. rewrite HNB.
+    destruct (IHb lv F st1 jb n' i bf a sc' n ltac:(lia) Hn Hlv Hwb H1 E1) as (sc2 & _ & Hsame & (stf & Ef & Of & Hf')).
+    exists stf. rewrite (gen_msg_children (jwalk o F) body Hm) by (rewrite (msg_size_mnodes body Hm); lia).
+    split; [exact Ef|]. split; [exact Of|]. rewrite <- (Hsame Hm). exact Hf'.
   - (* BNil *) intros lv f st jb n' i bf a sc n Hf Hn Hlv Hwf Hs Eg. rewrite bgen_nil in Eg. inversion Eg; subst.
-    exists sc. split; [reflexivity|]. apply gres_ret; exact Hs.
+    exists sc. split; [reflexivity|]. split; [reflexivity|]. apply gres_ret; exact Hs.
   - (* BCons *) intros s IHs r IHr lv f st jb n' i bf a sc n Hf Hn Hlv Hwf Hs Eg. rewrite bgen_cons in Eg. rewrite bdepth_cons in Hf.
     destruct (sgen a bf sc n s) as [j [sc1 n1]] eqn:E1. destruct (bgen a bf sc1 n1 r) as [jr n2] eqn:E2. inversion Eg; subst. clear Eg.
     rewrite bwf_cons in Hwf. apply andb_prop in Hwf. destruct Hwf as [Hws Hwr].
     destruct (sgen_scope _ _ _ _ _ _ _ _ E1 Hn) as [Htl1 Hn1].
     pose proof (lvok_after lv _ _ _ _ _ _ _ _ (swf_binder lv s Hws) E1 Hlv) as Hlv1.
     rewrite bnodes_cons, bprint_cons. cbn [jwalk_list].
-    assert (Hex : forall x, shape x i bf a sc1 n1 -> exists sc', tl sc' = tl sc1
+    assert (Hex : forall x, shape x i bf a sc1 n1 -> exists sc', tl sc' = tl sc1 /\ (msg_ok r = true -> sc' = sc1)
                    /\ gres (jwalk_list (jwalk o f) (bnodes r)) x (bprint i jr) i bf a sc' n').
     { intros x Hx. apply (IHr lv f x jr n' i bf a sc1 n1); [lia|exact Hn1|exact Hlv1|exact Hwr|exact Hx|exact E2]. }
     destruct (IHs lv f st j sc1 n1 i bf a sc n ltac:(lia) Hn Hlv Hws Hs E1) as (x & Ex & Ox & Hx).
-    destruct (Hex x Hx) as (sc' & Htl & (y & Ey & Oy & Hy)).
-    exists sc'. split; [congruence|]. exists y. rewrite (jbind_ok _ _ _ _ _ Ex). split; [exact Ey|].
+    destruct (Hex x Hx) as (sc' & Htl & Hsm & (y & Ey & Oy & Hy)).
+    exists sc'. split; [congruence|]. split.
+    { intro Hm. cbn [msg_ok] in Hm. apply andb_prop in Hm. destruct Hm as [Hms Hmr]. rewrite (Hsm Hmr).
+      destruct s; try discriminate Hms.
+      - rewrite sgen_raw in E1. inversion E1; reflexivity.
+      - rewrite sgen_print_eq in E1. inversion E1; reflexivity.
+      - rewrite sgen_call in E1. destruct (pgen a sc n ps) as [jps np]. inversion E1; reflexivity. }
+    exists y. rewrite (jbind_ok _ _ _ _ _ Ex). split; [exact Ey|].
     split; [rewrite Oy, Ox, rev_app_distr, app_assoc; reflexivity|exact Hy].
   - (* ENone *) intros lv F st jl n' i bf a sc n Hf Hn Hlv Hwf Hs Eg. rewrite egen_none in Eg. inversion Eg; subst. cbn [enodes jif_conds lprint]. apply gres_ret; exact Hs.
   - (* EElse *) intros b IHb lv F st jl n' i bf a sc n Hf Hn Hlv Hwf Hs Eg. rewrite egen_else in Eg. rewrite edepth_else in Hf.
